@@ -1008,6 +1008,22 @@ def c19_r3(ctx, f):
             fdef = [d for d in fn.defs()[0] if d.kind == "calldest" and d.point == fc[0].point][0]
             ctx.check(rid, contains(wo, ("def", fdef.id)) or _flows_from(fn, c.args[0], c.point, fdef.id), fn.path + "/target", c.where(), fn.path,
                       "write target", "write_all does not write to the created file", found=expr_str(wo, fn), sample="written to the created file")
+        # a buffering writer keeps bytes in memory: its errors surface at flush (or are discarded in drop)
+        recv_ty = ""
+        a0 = c.args[0]
+        if a0["k"] in ("copy", "move"):
+            recv_ty = fn.local_ty(a0["p"]["l"]) or ""
+        buffered = any(k in recv_ty or k in (c.name or "") for k in ("BufWriter", "LineWriter"))
+        if buffered:
+            fl = [x for x in fn.calls() if (x.declared or "").endswith("Write::flush") or (x.name or "").endswith("::flush")
+                  or (x.name or "").endswith("::into_inner")]
+            rets_ok = [b["id"] for b in fn.blocks if not b["cleanup"] and b["term"]["k"] == "ret"]
+            good = [x for x in fl if fn.dominates(c.block, x.block) and x.block != c.block]
+            ctx.check(rid, bool(good), fn.path + "/flush", c.where(), fn.path, "buffered writer `%s`" % recv_ty,
+                      "the document is written through a buffering writer that is never flushed: a failed or short write surfaces only "
+                      "when the writer is dropped, where the error is discarded, and Ok(()) is returned for a truncated file",
+                      found=[x.name for x in fl], sample="buffered writer flushed before Ok")
+            _ = rets_ok
 
 
 def _flows_from(fn, op, pt, defid):
